@@ -149,7 +149,8 @@ func (g *c12Gen) boolean(p string) string {
 // item draws one select-list item (with alias). nested=false inside subqueries.
 func (g *c12Gen) item(p string, i int, top bool) string {
 	alias := fmt.Sprintf("c%d", i)
-	kinds := []string{"col", "num", "str", "bool", "null", "tuple", "array", "subquery", "exists", "async", "backref", "nestedcol", "first", "last", "elementat", "once", "objcol", "fuse", "asyncstr", "subquery_async"}
+	kinds := []string{"col", "num", "str", "bool", "null", "tuple", "array", "subquery", "exists", "async", "backref", "nestedcol", "first", "last", "elementat", "once", "objcol", "fuse", "asyncstr", "subquery_async",
+		"fuse_sub", "await", "star_sub", "selector"}
 	if !top || p != "" {
 		kinds = []string{"col", "num", "str", "bool", "null", "tuple", "array", "async", "objcol"}
 	}
@@ -202,6 +203,24 @@ func (g *c12Gen) item(p string, i int, top bool) string {
 		return fmt.Sprintf("ELEMENTAT(n, 0) AS %s", alias)
 	case "fuse":
 		return "FUSE(o)"
+	case "fuse_sub":
+		return fmt.Sprintf("FUSE((%s))", g.pick("fuse_sub_q", "SELECT * FROM dual", "SELECT ip FROM `<-"+g.root+"meta`", "SELECT p, q FROM o", "SELECT *, 1 AS one FROM o"))
+	case "star_sub":
+		return fmt.Sprintf("(%s) AS %s", g.pick("star_sub_q", "SELECT * FROM dual", "SELECT * FROM o", "SELECT *, v + 1 AS v1 FROM n", "SELECT * FROM `<-"+g.root+"meta`"), alias)
+	case "await":
+		switch g.pick("await_kind", "col", "async", "setvar", "num") {
+		case "col":
+			return fmt.Sprintf("AWAIT(%sa) AS %s", p, alias)
+		case "async":
+			g.site++
+			g.sites = append(g.sites, g.site)
+			return fmt.Sprintf("AWAIT(ASYNC.fx(%d, %sa)) AS %s", g.site, p, alias)
+		case "setvar":
+			return fmt.Sprintf("AWAIT(SETVAR('k', %sid)) AS %s", p, alias)
+		}
+		return fmt.Sprintf("AWAIT(%s) AS %s", g.num(p), alias)
+	case "selector":
+		return rapid.SampledFrom([]string{"`n[0].v` AS v0", "`n[(0:end)].w` AS ws", "`distinct=>n[each].w` AS dw", "`n{v|string, w}` AS rs", "`mix=>n[each].v` AS mx", "`o.p` AS op"}).Draw(g.t, "selcol")
 	}
 	return p + "id"
 }
@@ -261,7 +280,7 @@ func genC12(t *rapid.T) *Bundle {
 	}
 	g := &c12Gen{t: t, root: root}
 	T, U := root+"t", root+"u"
-	shape := g.pick("shape", "plain", "plain", "where", "order_total", "order_ties", "limit", "distinct", "group", "whole_agg", "join", "pjoin", "derived", "cte", "cte_direct", "dual", "union", "slice", "alias", "star", "nested_from", "group_star", "in_subquery", "having")
+	shape := g.pick("shape", "plain", "plain", "where", "order_total", "order_ties", "limit", "distinct", "group", "whole_agg", "join", "pjoin", "derived", "cte", "cte_direct", "dual", "union", "slice", "alias", "star", "nested_from", "group_star", "in_subquery", "having", "cte_col", "cte_twice", "offset_window")
 	seq := true
 	var q string
 	switch shape {
@@ -309,6 +328,12 @@ func genC12(t *rapid.T) *Bundle {
 		q = fmt.Sprintf("WITH c AS (SELECT %s FROM %s) SELECT * FROM c", g.items("", true), T)
 	case "cte_direct":
 		q = fmt.Sprintf("WITH c AS (SELECT id, n FROM %s) SELECT v FROM `c.n`", T)
+	case "cte_col":
+		q = fmt.Sprintf("WITH c AS (SELECT %s FROM %s) SELECT %s FROM dual", g.items("", true), T, g.pick("cte_col_sel", "c", "c AS cc, "+root+"meta", "*", "c, *"))
+	case "cte_twice":
+		q = fmt.Sprintf("WITH c AS (SELECT id, a FROM %s) SELECT id, (SELECT a FROM `<-c` WHERE a >= 10) AS again FROM c", T)
+	case "offset_window":
+		q = fmt.Sprintf("SELECT id FROM %s LIMIT %d OFFSET %d", T, rapid.IntRange(0, 6).Draw(t, "lim"), rapid.IntRange(0, 6).Draw(t, "off"))
 	case "dual":
 		q = fmt.Sprintf("SELECT %d + 1 AS two, 'lit' AS l, (1, 2) AS tup, NULL AS nul, TRUE AS tr FROM dual", rapid.IntRange(0, 3).Draw(t, "dk"))
 	case "union":
@@ -326,7 +351,8 @@ func genC12(t *rapid.T) *Bundle {
 	}
 	exp := c12Expect{Query: q, SeqFixed: seq, Sites: g.sites, Shape: shape}
 	sim := drawSim(t, "")
-	c := oneClientCase("C12", sim, doc, casefmt.Op{Doc: 0, Vars: -1, Query: q, Wrapped: wrapped})
+	c := oneClientCase("C12", sim, doc, casefmt.Op{Doc: 0, Vars: 0, Query: q, Wrapped: wrapped})
+	c.Vars = []map[string]any{{}}
 	c.NativeInts = rapid.Bool().Draw(t, "native_ints")
 	c.Stubs.Lat = drawLatencies(t, g.sites, 6)
 	tags := []string{"shape:" + shape}
